@@ -185,7 +185,7 @@ func (o *c07) End(x *hctx) string {
 		if sl != nil {
 			res := x.r.Do(hist.Step{Op: "close", Slot: i})
 			if res.Hang != nil {
-				failf(x.f, "%s", res.Hang.Detail)
+				checkObs(x.f, res.Hang, "close")
 			}
 		}
 	}
